@@ -109,6 +109,14 @@ structure Variant where
   partFieldsAnyStrict : Bool := false
   /-- before f3628e7: partial-vs-tuple had no arm (always unrelated) -/
   noPartTupleArm : Bool := false
+  /-- before 30aca33: the callable arm recorded no coinductive assumption (a `Cycle` pointing at a
+  function type looped for ever: R4) -/
+  callableNoAssumption : Bool := false
+  /-- before e0ad7de: `intersect_pair` / `subtract_one` compared tuple types by name and arity only,
+  never by field labels (narrowing functions, `Narrow.lean`) -/
+  narrowIgnoresLabels : Bool := false
+  /-- before 9604765: `contains_cycle` did not look inside callable / process types -/
+  cycleCheckSkipsCallable : Bool := false
   deriving DecidableEq, Repr, Inhabited
 
 /-- Restore the snapshot when a union check fails (fix e428d71). -/
@@ -289,7 +297,11 @@ def relStep (vr : Variant) (T : Table) (mode : Mode) (rec : Rec)
   | .part n1 fs1, .part n2 fs2 => partPart vr mode rec asm st n1 fs1 n2 fs2
   | .part pn pfs, .tuple c => partTuple vr T mode rec asm st pn pfs c
   | .process s1 r1, .process s2 r2 => processProcess rec asm st s1 r1 s2 r2
-  | .callable p1 r1 c1, .callable p2 r2 c2 => callableCallable rec asm st b p1 r1 c1 p2 r2 c2
+  | .callable p1 r1 c1, .callable p2 r2 c2 =>
+    -- the pair is recorded as a coinductive assumption and dropped again on failure, as in the
+    -- union arms (fix 30aca33)
+    if vr.callableNoAssumption then callableCallable rec asm st b p1 r1 c1 p2 r2 c2
+    else restoreOnFail vr asm (callableCallable rec ((a, b) :: asm) st b p1 r1 c1 p2 r2 c2)
   | _, _ => some (false, asm)
 
 /-- `check_type_relation(self_id, pattern_id, lookup, mode, assumptions, type_stack)`. -/
